@@ -322,8 +322,18 @@ class WatchdogSim(PeerSim):
             gaps = [full[i + 1] - full[i] for i in range(len(full) - 1)] + [first_disc - full[-1]]
             gaps_ok = max(gaps) <= I - 2 + 1e-9
             all_treq = [(t, rid) for (t, typ, rid, seq) in self.eut_tx if typ == "1" and t <= first_disc]
-            every_answered = all(
-                answered.get((t, rid), float("inf")) - t <= 2 * I - 2 + 1e-9 for (t, rid) in all_treq)
+            # a TestRequest still unanswered at the disconnect is not held against the peer when its (planned,
+            # correct) answer was not due yet and was due inside the band: the endpoint hung up on a live peer
+            ans = cfg["answer"]
+            d_plan = ans["delay"] if ans["mode"] in ("ok", "ok_gap") and not cfg["answer_first_only"] else None
+
+            def in_time(t, rid):
+                got = answered.get((t, rid))
+                if got is not None:
+                    return got - t <= 2 * I - 2 + 1e-9
+                return d_plan is not None and d_plan <= 2 * I - 2 + 1e-9 and first_disc < t + d_plan - 1e-9
+
+            every_answered = all(in_time(t, rid) for (t, rid) in all_treq)
             answers_ok = bool(all_treq) and every_answered
             # a TestRequest the application itself asked for (public send_test_req) and that the peer
             # ignores entitles the endpoint to drop the session even though other traffic flows: the
